@@ -153,7 +153,9 @@ def corrmtx(x_input, m, method='autocorrelation'):
         x = numpy.array(x_input)
     else:
         x = x_input.copy()
-
+    if x.dtype.kind in 'iub':
+        # integer samples: products of matrix entries would wrap around in the integer type
+        x = x.astype(float)
 
     if x.dtype == complex:
         complex_type = True
